@@ -47,6 +47,10 @@ P = {
   "Aliasing decided on reference-faithful dataset/array stand-ins with symbolic contents: (i) after Grid.from_topology / Grid.from_dataset(UGRID) and first use, every input buffer, attribute dictionary and the input dataset's variable set equal their snapshots; (ii) after copy(), a public mutator on either side (coordinate setter, normalize_cartesian_coordinates, construct_face_centers, lazy derivation + setter) leaves every observation on the other side unchanged; (iii) after an arbitrary caller edit of the dataset returned by to_xarray('ugrid') (in-place value / connectivity edit, attribute edit, variable deletion) the Grid reports what it reported before.",
   "Bounds: 2 faces <= 4 corners, nodes < 6, lon in [0,360] (wrap branch), start_index in {0,1}, fill dialects none/-1/standard, int32/int64. Not covered here: chunk() (dask), to_geodataframe/to_polycollection/to_linecollection objects (see C15), list/tuple inputs. Trusted: symxr's sharing semantics (variables shared between a Dataset and the DataArrays it hands out, shallow-copied attrs on assignment, copy-on-assign Dataset.attrs) as a model of xarray's; every model is replayed on real numpy/xarray objects.",
   "DESIGN.md §2 C19"),
+ "C15": (True,
+  "The real shell/antimeridian/collection/frame builders and the cache logic of Grid.to_polycollection / to_geodataframe / to_linecollection and of the UxDataArray wrappers run over recording stubs of matplotlib, shapely, (geo|spatial)pandas, antimeridian and cartopy. With all node longitudes symbolic, z3 shows: antimeridian_face_indices are exactly the faces with an edge spanning >= 180 deg; under 'exclude' polygon/row k is the k-th non-crossing face (corners in order, first corner repeated) and corrected_to_original_faces / the data value k belong to it; under 'ignore'/'split' one polygon per face in order, 'split' passes exactly the crossing faces through fix_polygon, paired with their own face; data stay aligned for both engines. With conversion arguments and 2-3 call histories symbolic: every result equals a fresh conversion with its own arguments, objects handed out earlier are not altered, polycollections are distinct objects, the grid's node_lon is unchanged.",
+  "Outside: what shapely / antimeridian.fix_polygon / cartopy compute (pure-function stubs), float32 rounding of shells (0.5 deg margin from |dlon|=180), 'split' piece geometry. Bounds: 4 faces (2 quads + 2 triangles, padding present) over 8 nodes; histories over periodic_elements x projection in {None, lon_0=0, lon_0=90} x cache x override (x engine, x via-data), argument domains per obligation in the evidence. Abstracted: candidates are replayed on the real libraries (matplotlib, spatialpandas, geopandas, cartopy Robinson).",
+  "DESIGN.md §2 C15"),
 }
 NA = {
  "C10": "Quantifies over arbitrary compositions of xarray's own operations; whether the grid survives is decided inside xarray/numpy C-level dispatch which symbolic values cannot cross, and there is no bounded uxarray kernel to encode (DESIGN.md §4).",
